@@ -35,6 +35,8 @@ def run(ctx):
     ctx.rule(same_formula)
     ctx.rule(hermitian)
     ctx.rule(purity)
+    ctx.rule(threshold_live)
+    ctx.rule(fc.gabor_supports, "R-C06-gabor-support", ("freq",))
 
 
 def halflen(ctx, R="R-C06-halflen"):
@@ -146,27 +148,9 @@ def same_formula(ctx, R="R-C06-same-formula"):
         # index of the stored value: res[idx] vs res[idx - left_idx]
         kt = [k for k in et.env if k.startswith("res[")]
         ctx.check(len(kt) == 1 and "left_idx" in kt[0], R, tr, lt, "%s: truncated bin idx is stored at idx - left_idx" % name, "truncated store key is %s" % kt)
-    # Gabor: same Gaussian template
-    c = fc.bank(prog, "GaborFilterBank")
-    full, tr = prog.own_method(c, "get_frequency_response"), prog.own_method(c, "get_truncated_response")
-    for l2 in (True, False):
-        vals = []
-        for f in (full, tr):
-            ev = SymEval(prog, f, seed={"self._scale_l2_norm": l2, "half": False}, inline_props=False).run()
-            inner = [n for n in ast.walk(f.node) if isinstance(n, ast.For) and astq.is_name(n.target, "period")]
-            ctx.need(len(inner) == 1, R, "period loop not found in %s" % f.short)
-            st = [s for s in inner[0].body if isinstance(s, ast.Assign) and astq.is_name(s.targets[0], "val")]
-            ctx.need(len(st) == 2 and ev.reached(st[1]), R, "Gaussian value statements not found in %s" % f.short)
-            v = ev.eval_at(st[1], st[1].value)
-            vals.append((v, st[1], f))
-        r = S.compare(vals[0][0], vals[1][0], domain={})
-        ctx.check(r["verdict"] == "equal", R, tr, vals[1][1], "Gabor (scale_l2_norm=%s): truncated and full responses use the same Gaussian term" % l2,
-                  "Gabor: truncated term %s vs full term %s" % (S.show(vals[1][0])[:140], S.show(vals[0][0])[:140]))
-        w = S.sym("width")
-        om = S.mul(S.mul(S.add(S.truediv(S.sym("idx"), w), S.sym("period")), S.lift(2)), S.PI)
-        cst = S.ZERO
-        v = vals[0][0]
-        ctx.check("exp(" in S.show(v) and "period" in S.show(v), R, full, vals[0][1], "Gabor: the term is exp(-sigma^2/2 (xi - omega)^2 + const) at omega = 2 pi (idx/width + period)")
+    # Gabor: full (half or not) and truncated responses accumulate the same closed form at omega = 2 pi (idx / width + period)
+    from .c05 import gabor_norm
+    gabor_norm(ctx, R)
     # gammatone: both go through _H
     c = fc.bank(prog, "ComplexGammatoneFilterBank")
     for meth in ("get_frequency_response", "get_truncated_response"):
@@ -221,3 +205,10 @@ def purity(ctx, R="R-C06-pure"):
         for meth in ("get_frequency_response", "get_truncated_response"):
             f = prog.own_method(c, meth)
             fresh_and_pure(ctx, R, f, "%s.%s" % (name, meth))
+
+
+def threshold_live(ctx, R="R-C06-threshold-live"):
+    """The truncation threshold that bounds the error of the rebuilt response is the one in force when the bank is
+    built / queried (config.EFFECTIVE_SUPPORT_THRESHOLD read at call time), not a copy frozen at import."""
+    from .c07 import config_live
+    config_live(ctx, R)
